@@ -89,7 +89,7 @@ def nontrivial(prog, obs):
 
 def make_cases(chk):
     n = 60 if chk.tier == 'quick' else 600
-    hi = 12 if chk.tier == 'quick' else 30
+    hi = 12 if chk.tier == 'quick' else 16     # the model's exact rationals grow with the length of a history: more histories, not longer ones
     w = {'newc': 1, 'newp': 0.4, 'cc': 4, 'cp': 3, 'pc': 3, 'pp': 5, 'remove': 0.7, 'fill': 0.7, 'bad': 0.8}
     gens = []
     for i in range(n):
@@ -102,7 +102,9 @@ def run(chk, gate, status):
     gens = make_cases(chk)
     chk.assumptions += ["amounts are compared within 1e-8 storage units per operation (x1000/density for enzymes) and 2e-8 relative",
                         "regions are passed to the model as resolved index lists (the selector grammar is C13's subject)"]
-    return histcheck.run(chk, gens, oracle, 'C01', RULE, nontrivial)
+    cov = histcheck.run(chk, gens, oracle, 'C01', RULE, nontrivial)
+    cov['operations_under_configuration_variants'] = histcheck.variants(chk, gens, oracle, 'C01v', limit=8 if chk.tier == 'quick' else 60)
+    return cov
 
 
 def replay(path):
